@@ -128,12 +128,17 @@ def run(ctx):
             st.append(y)
     leaked = sorted(u for u in uses if u in live)
     ctx.require(bool(uses) and not leaked, "R-C06-1", "reaching-defs", "the un-reversed graph reaches the %d kernel uses only along specs.directed == false" % len(uses), "on a path with specs.directed == true the kernels can still see the original graph (uses in blocks %s)" % leaked, loc_str(root.span))
-    # the result's node names come from the same graph variable
+    # the result's node names come from the same graph variable: the kernels number their sources by position in the
+    # graph they run on, so a name taken from another graph value (the un-reversed original, whose positions need not
+    # agree) attaches a value to the wrong node
+    n_names = 0
     for b in bodies:
         for t in b.calls():
-            if t.callee and t.callee.short.endswith("Graph::get_node_by_index"):
+            if t.callee and t.callee.target_path(prog) and t.callee.short.split("::")[-1] in ("get_node_by_index", "get_all_node_names", "get_all_nodes", "get_node_index") and t.args:
+                n_names += 1
                 params, callees = value_descriptor(flows, root.path, b.path, t.args[0])
-                ctx.require(any(c.endswith("Graph::reverse") for c in callees), "R-C06-1", "names|" + b.short.split("::", 3)[-1], "node names are looked up in the same (possibly reversed) graph the kernels ran on", "node names are looked up in a different graph value than the kernels use", loc_str(t.span))
+                ctx.require(any(c.endswith("Graph::reverse") for c in callees), "R-C06-1", "names|%s|%s" % (b.short.split("::", 3)[-1], t.callee.short.split("::")[-1]), "node names are looked up in the same (possibly reversed) graph the kernels ran on", "node names / positions are taken from a different graph value (%s) than the one the kernels run on: positions of the reversed graph need not agree with the original's" % t.callee.short.split("::")[-1], loc_str(t.span))
+    ctx.floor("R-C06-1", "name_lookups", n_names, 1)
 
     ctx.rule("R-C06-2", "the result depends on weighted, wf_improved and the kernels")
     sl = set()
